@@ -108,12 +108,13 @@ static std::vector<long long> dump_hierarchy(ParMultilevel* ml, std::vector<long
         auto rows = G({ (long long)A->local_num_rows, (long long)A->global_num_rows, (long long)A->global_num_cols,
                         (long long)A->on_proc_num_cols, (long long)ml->levels[l]->x.local_n, (long long)ml->levels[l]->b.local_n, (long long)ml->levels[l]->tmp.local_n,
                         (long long)(A->local_row_map.empty() ? -1 : A->local_row_map[0]),
-                        (long long)(P ? P->local_num_rows : -1), (long long)(P ? P->on_proc_num_cols : -1), (long long)(P ? P->global_num_rows : -1), (long long)(P ? P->global_num_cols : -1) });
+                        (long long)(P ? P->local_num_rows : -1), (long long)(P ? P->on_proc_num_cols : -1), (long long)(P ? P->global_num_rows : -1), (long long)(P ? P->global_num_cols : -1),
+                        (long long)ml->levels[l]->x.global_n, (long long)ml->levels[l]->b.global_n, (long long)ml->levels[l]->tmp.global_n });
         auto ae = ents_bits(A);
         std::vector<long long> pe; if (P) pe = ents_bits(P);
         if (E.rank == 0) {
             tr(ae, l, l); if (P) tr(pe, l, l + 1 < nl ? l + 1 : l);
-            h.push_back((long long)rows.size() * 12); for (auto& v : rows) for (auto x : v) h.push_back(x);
+            h.push_back((long long)rows.size() * 15); for (auto& v : rows) for (auto x : v) h.push_back(x);
             h.push_back((long long)ae.size()); h.insert(h.end(), ae.begin(), ae.end());
             h.push_back(P ? 1 : 0); h.push_back((long long)pe.size()); h.insert(h.end(), pe.begin(), pe.end());
         }
@@ -152,9 +153,10 @@ static std::vector<long long> dump_seq_hierarchy(Multilevel* ml)
     for (int l = 0; l < nl; l++) {
         CSRMatrix* A = ml->levels[l]->A; CSRMatrix* P = l + 1 < nl ? ml->levels[l]->P : nullptr;
         std::vector<long long> row = { A->n_rows, A->n_rows, A->n_cols, A->n_cols, (long long)ml->levels[l]->x.size(), (long long)ml->levels[l]->b.size(), (long long)ml->levels[l]->tmp.size(), 0,
-                                       (long long)(P ? P->n_rows : -1), (long long)(P ? P->n_cols : -1), (long long)(P ? P->n_rows : -1), (long long)(P ? P->n_cols : -1) };
+                                       (long long)(P ? P->n_rows : -1), (long long)(P ? P->n_cols : -1), (long long)(P ? P->n_rows : -1), (long long)(P ? P->n_cols : -1),
+                                       (long long)ml->levels[l]->x.size(), (long long)ml->levels[l]->b.size(), (long long)ml->levels[l]->tmp.size() };
         auto ae = seq_ents(A); std::vector<long long> pe; if (P) pe = seq_ents(P);
-        h.push_back(12); for (auto x : row) h.push_back(x);
+        h.push_back(15); for (auto x : row) h.push_back(x);
         h.push_back((long long)ae.size()); h.insert(h.end(), ae.begin(), ae.end());
         h.push_back(P ? 1 : 0); h.push_back((long long)pe.size()); h.insert(h.end(), pe.begin(), pe.end());
     }
@@ -177,10 +179,20 @@ static void run_seq(const char* mode)
     bool c10 = !strcmp(mode, "C10"), c01 = !strcmp(mode, "C01"), c08 = !strcmp(mode, "C08"), c09 = !strcmp(mode, "C09");
     vh::Rng g(E.seed * 2750159 + 1000 + (c10 ? 10 : c01 ? 1 : c08 ? 8 : 9));
     int ncases = E.thorough ? 150 : 45;      // one process, small systems: cheap
-    for (int it = 0; it < ncases; it++)
+    // C01, after the regular cases (their numbers stay): relaxation that diverges (Jacobi with weight > 1; 1e8 overflows to
+    // non-finite iterates) and systems with a tiny right-hand side (2^-40): a solve that stops early must still be right
+    int nextra = c01 ? ncases : 0;
+    for (int it0 = 0; it0 < ncases + nextra; it0++)
     {
+        int it = it0 < ncases ? it0 : it0 - ncases; int xk = it0 < ncases ? -1 : (it0 - ncases) % 4;
         Problem p = gen_problem(g, it, c10);
         Opts o = gen_opts(g, c10); o.tap = -1; o.tol = 1e-7;
+        // no depth limit (the library's sentinel -1, written as 0 in the case lines) on the families that always coarsen: a
+        // hierarchy that stagnates (decoupled rows) would never stop, which the property does not exclude
+        if ((p.kind == 0 || p.kind == 2) && o.max_levels == 25 && o.max_coarse != 50) o.max_levels = -1;
+        if (xk == 0) { o.relax = 0; o.weight = 1.25 + 0.5 * (it % 3); o.max_iter = std::max(o.max_iter, 12); }
+        if (xk == 1) { o.relax = 0; o.weight = 1e8; o.max_iter = 40; }
+        double rhs_scale = xk >= 2 ? std::ldexp(1.0, -40) : 1.0;
         CSRMatrix* A;
         if (p.use_stencil) { double* st = diffusion_stencil_2d(p.eps, p.theta); A = stencil_grid(st, p.grid, 2); delete[] st; }
         else {   // entries assembled like the distributed path does (duplicates summed), rows sorted by column
@@ -195,7 +207,7 @@ static void run_seq(const char* mode)
         Multilevel* ml = make_seq_solver(o);
         if (o.solver == 0) ((RugeStubenSolver*)ml)->setup(A); else ((SmoothedAggregationSolver*)ml)->setup(A);
         std::vector<long long> H = dump_seq_hierarchy(ml);
-        std::vector<long long> optv = { o.solver, o.coarsen, o.interp, o.relax, o.sweeps, o.max_coarse, o.max_levels, o.tap, o.max_iter, (long long)vh::dbits(o.weight), (long long)vh::dbits(o.theta), (long long)vh::dbits(o.tol), p.kind, 1, 1 };
+        std::vector<long long> optv = { o.solver, o.coarsen, o.interp, o.relax, o.sweeps, o.max_coarse, o.max_levels < 0 ? 0 : o.max_levels, o.tap, o.max_iter, (long long)vh::dbits(o.weight), (long long)vh::dbits(o.theta), (long long)vh::dbits(o.tol), p.kind, 1, 1 };
         if (c08) {
             bool want = E.want(); auto A_after = seq_ents(A);
             if (want) { vh::Case c("C08", "hier"); c.vec(optv).vec(A_before).vec(A_after); for (auto x : H) c.i(x); c.write(E.out); }
@@ -214,7 +226,7 @@ static void run_seq(const char* mode)
             struct Rec { int kind; std::vector<double> x0, b0; std::vector<long long> xo, bo; };
             std::vector<Rec> recs;
             int nops = g.range(6, 12);
-            std::vector<int> plan = { 0, 1, 2, 3 };
+            std::vector<int> plan = { 0, 1, 2, 3, 8, 9 };
             for (int k = 0; k < nops; k++) { int op = g.below(6); plan.push_back(op); }
             for (int op : plan) {
                 Rec r; r.kind = op;
@@ -222,6 +234,9 @@ static void run_seq(const char* mode)
                 if (op <= 4) {
                     const std::vector<double>& xx = op == 1 ? x2 : op == 2 ? x3 : op == 3 ? xs : x1; const std::vector<double>& bb = op == 1 ? b2 : op == 2 ? b3 : op == 3 ? bs : b1;
                     r.x0 = xx; r.b0 = bb; run_cycle(xx, bb, r.xo, r.bo);
+                } else if (op >= 8) {                                      // cycle(s x1, s b1) for a power of two s: scaling is exact
+                    double sc = std::ldexp(1.0, op == 8 ? -62 : 40); r.x0 = x1; r.b0 = b1; for (auto& v : r.x0) v *= sc; for (auto& v : r.b0) v *= sc;
+                    std::vector<double> xx = r.x0, bb = r.b0; run_cycle(xx, bb, r.xo, r.bo);
                 } else { r.x0 = rvec(g, n); r.b0 = rvec(g, n); ssetv(x, r.x0); ssetv(b, r.b0); ml->solve(x, b, o.max_iter); r.xo = svec(x); r.bo = svec(b); }
                 recs.push_back(r);
             }
@@ -241,6 +256,7 @@ static void run_seq(const char* mode)
             if (c10 || g.coin(2, 3)) { ssetv(x, xs); A->mult(x, b); b0.assign(b.values.begin(), b.values.begin() + n); }
             else if (g.coin(1, 5)) b0.assign(n, 0.0);
             else b0 = rvec(g, n);
+            if (rhs_scale != 1.0) { for (auto& v : x0) v *= rhs_scale; for (auto& v : b0) v *= rhs_scale; for (auto& v : xs) v *= rhs_scale; }
             E.about((std::string("solve/") + ctx).c_str());
             ssetv(x, x0); ssetv(b, b0);
             int iters = ml->solve(x, b, o.max_iter);
@@ -270,11 +286,16 @@ int main(int argc, char** argv)
     bool c10 = !strcmp(mode, "C10"), c01 = !strcmp(mode, "C01"), c08 = !strcmp(mode, "C08"), c09 = !strcmp(mode, "C09");
     vh::Rng g(E.seed * 2750159 + (c10 ? 10 : c01 ? 1 : c08 ? 8 : 9));
     int ncases = E.thorough ? 60 : (c08 ? 36 : 14);
-    for (int it = 0; it < ncases; it++)
+    int nextra = c01 ? ncases : 0;       // as in the sequential part: diverging relaxation, tiny right-hand sides
+    for (int it0 = 0; it0 < ncases + nextra; it0++)
     {
+        int it = it0 < ncases ? it0 : it0 - ncases; int xk = it0 < ncases ? -1 : (it0 - ncases) % 4;
         Problem p = gen_problem(g, it, c10);
         Opts o = gen_opts(g, c10);
         if (c10) { o.tap = -1; }
+        if (xk == 0) { o.relax = 0; o.weight = 1.25 + 0.5 * (it % 3); o.max_iter = std::max(o.max_iter, 12); }
+        if (xk == 1) { o.relax = 0; o.weight = 1e8; o.max_iter = 40; }
+        double rhs_scale = xk >= 2 ? std::ldexp(1.0, -40) : 1.0;
         int style = 0;
         ParCSRMatrix* A = build(p, g, style);
         int fr = A->partition->first_local_row, lr = A->local_num_rows, n = A->global_num_rows;
@@ -285,7 +306,7 @@ int main(int argc, char** argv)
         ParMultilevel* ml = make_solver(o);
         ml->setup(A);
         std::vector<long long> H = dump_hierarchy(ml);
-        std::vector<long long> optv = { o.solver, o.coarsen, o.interp, o.relax, o.sweeps, o.max_coarse, o.max_levels, o.tap, o.max_iter, (long long)vh::dbits(o.weight), (long long)vh::dbits(o.theta), (long long)vh::dbits(o.tol), p.kind, E.np };
+        std::vector<long long> optv = { o.solver, o.coarsen, o.interp, o.relax, o.sweeps, o.max_coarse, o.max_levels < 0 ? 0 : o.max_levels, o.tap, o.max_iter, (long long)vh::dbits(o.weight), (long long)vh::dbits(o.theta), (long long)vh::dbits(o.tol), p.kind, E.np };
         if (c08) {
             bool want = E.want();
             auto A_after = ents_bits(A);
@@ -307,7 +328,7 @@ int main(int argc, char** argv)
             struct Rec { int kind; std::vector<double> x0, b0; std::vector<long long> xo, bo; unsigned long long hh; };
             std::vector<Rec> recs;
             int nops = g.range(6, 12);
-            std::vector<int> plan = { 0, 1, 2, 3 };                         // cycle(x1,b1), cycle(x2,b2), cycle(x3,b3), cycle(xs,bs)
+            std::vector<int> plan = { 0, 1, 2, 3, 8, 9 };                         // cycle(x1,b1), cycle(x2,b2), cycle(x3,b3), cycle(xs,bs)
             for (int k = 0; k < nops; k++) { int op = g.below(8); if (op == 6 && !p.spd) op = 5; plan.push_back(op); }   // PCG only on SPD systems
             for (int op : plan) {
                 Rec r; r.kind = op;
@@ -316,6 +337,9 @@ int main(int argc, char** argv)
                 if (op <= 3 || op == 4) {                                  // op 4: repeat of cycle(x1,b1) later in the history
                     const std::vector<double>& xx = op == 1 ? x2 : op == 2 ? x3 : op == 3 ? xs : x1; const std::vector<double>& bb = op == 1 ? b2 : op == 2 ? b3 : op == 3 ? bs : b1;
                     r.x0 = xx; r.b0 = bb; run_cycle(xx, bb, r.xo, r.bo);
+                } else if (op >= 8) {                                      // cycle(s x1, s b1) for a power of two s: scaling is exact
+                    double sc = std::ldexp(1.0, op == 8 ? -62 : 40); r.x0 = x1; r.b0 = b1; for (auto& v : r.x0) v *= sc; for (auto& v : r.b0) v *= sc;
+                    std::vector<double> xx = r.x0, bb = r.b0; run_cycle(xx, bb, r.xo, r.bo);
                 } else if (op == 5) {                                      // a full solve of another system in between
                     r.x0 = rvec(g, n); r.b0 = rvec(g, n); setv(x, r.x0, fr); setv(b, r.b0, fr); ml->solve(x, b); r.xo = gvec(x); r.bo = gvec(b);
                 } else if (op == 6) {                                      // hierarchy used as preconditioner inside PCG
@@ -345,6 +369,7 @@ int main(int argc, char** argv)
             if (c10 || g.coin(2, 3)) { setv(x, xs, fr); A->mult(x, b); auto bb = gvec(b); b0.resize(n); if (E.rank == 0) for (int i = 0; i < n; i++) { uint64_t u = (uint64_t)bb[i]; memcpy(&b0[i], &u, 8); } MPI_Bcast(b0.data(), n, MPI_DOUBLE, 0, MPI_COMM_WORLD); }
             else if (g.coin(1, 5)) b0.assign(n, 0.0);            // zero right-hand side: absolute residual branch
             else b0 = rvec(g, n);
+            if (rhs_scale != 1.0) { for (auto& v : x0) v *= rhs_scale; for (auto& v : b0) v *= rhs_scale; for (auto& v : xs) v *= rhs_scale; }
             E.about((std::string("solve/") + ctx).c_str());
             setv(x, x0, fr); setv(b, b0, fr);
             int iters = ml->solve(x, b);
